@@ -146,13 +146,15 @@ pub struct Oracles {
     pub both_headers: bool,
     /// the write transaction itself is dumped (cursor scans of every bucket) right before commit / drop
     pub dump_in_tx: bool,
+    /// full read API on the write transaction itself right before it commits / is dropped
+    pub probe_in_tx_end: Option<ProbeCfg>,
     /// every put into a non-empty bucket is made while an already positioned cursor of that bucket is
     /// kept; the cursor must afterwards still reach every untouched entry that follows its position
     pub kept_cursor: bool,
 }
 
 impl Oracles {
-    pub const NONE: Oracles = Oracles { rets: false, dump_after: false, reopen_copy: false, probe_each_op: None, probe_after_commit: None, fileck: false, dbcheck: false, no_trace: false, readers_frozen: false, strict_layout: false, both_headers: false, dump_in_tx: false, kept_cursor: false };
+    pub const NONE: Oracles = Oracles { rets: false, dump_after: false, reopen_copy: false, probe_each_op: None, probe_after_commit: None, fileck: false, dbcheck: false, no_trace: false, readers_frozen: false, strict_layout: false, both_headers: false, dump_in_tx: false, probe_in_tx_end: None, kept_cursor: false };
 }
 
 #[derive(Clone, Debug)]
@@ -578,6 +580,18 @@ impl Runner {
                         }
                         Ok(Err(e)) => out.push(Violation::new("tx_begin_error", format!("read-only begin while a write transaction is open: {:?}", e))),
                         Err(p) => out.push(Violation::new(panic_class("tx_begin_panic", &p), p)),
+                    }
+                }
+                if let Some(cfg) = or.probe_in_tx_end {
+                    let mut ms = vec![];
+                    let mut st = ProbeStats::default();
+                    let r = guarded(|| real::probe_tx(&tx, &model, &self.extra_probes, cfg, &mut st, &mut ms));
+                    self.stats.reads += st.reads;
+                    if let Err(p) = r {
+                        out.push(Violation::new(panic_class("read_panic", &p), p));
+                    }
+                    for m in ms {
+                        out.push(Violation::new(format!("read:{}", m.class), format!("inside the write tx before it ends: {}", m.detail)));
                     }
                 }
                 if or.dump_in_tx {
